@@ -44,7 +44,9 @@ def top_level_slots(lines):
 
 
 DECOR = ["\t; page break \x0c and vertical tab \x0b in a comment", "; line separator \u2028 next-line \x85 paragraph \u2029 in a comment", "\t; record separators \x1c\x1d\x1e",
-         "\t; комментарий перед ошибкой", "; comment with \"quotes\" and 'c and {", "\t\t; tabs\tinside\tcomment", "", "   "]
+         "\t; комментарий перед ошибкой", "; comment with \"quotes\" and 'c and {", "\t\t; tabs\tinside\tcomment", "", "   ",
+         # characters whose lower-case, upper-case or case-folded form has another length (one position is one character of the SOURCE)
+         "; Straße, İstanbul, ﬁn ﬂ ﬀ ﬆ, ǅ ŉ ǰ ΐ", "\t; ß\tİ\tﬃ", "; combining marks: e\u0301 и\u0306 and a non-BMP sign \U0001d11e"]
 
 
 def plant(host, rnd, fault, where=None, decorate=True):
@@ -74,6 +76,7 @@ def write_host(host, root, final_newline=True):
     os.makedirs(root, exist_ok=True)
     for name, lines in host["texts"].items():
         nl = final_newline if isinstance(final_newline, bool) else (name not in final_newline)
+        os.makedirs(os.path.dirname(os.path.join(root, name)), exist_ok=True)
         with open(os.path.join(root, name), "w", encoding="utf-8") as f:
             f.write("\n".join(lines) + ("\n" if nl else ""))
     return list(host["linked"])
